@@ -8,6 +8,7 @@ From Coq Require Import List ZArith NArith Bool Floats.
 From WTF Require Import Model.Validate Model.Text Model.Platform Model.Engine Model.Index Model.Retry
                         Proofs.EngineProofs Proofs.CandidateProofs Proofs.IndexProofs.
 From WTF Require Proofs.Corollaries.
+From WTF Require Import Model.Fuzzy Proofs.FuzzyProofs.
 Import ListNotations.
 
 (* every document the engine returns, on every path, exists in the database it searched (no index out of range) *)
@@ -29,7 +30,19 @@ Theorem load_classifies : forall (A : Type) (l : list A),
   classify A (AOk l) = None /\ classify A ANotExist = Some ENotFound /\ classify A AParse = Some EParse.
 Proof. exact Corollaries.load_classifies. Qed.
 
+(* the typo matcher (Model/Fuzzy.v: sahilm/fuzzy transcribed for ASCII text, compared with the library's scores on every
+   engine case): whatever the pattern, a target without NUL bytes never makes it index the pattern out of range ... *)
+Theorem matcher_total_without_nul : forall pattern target,
+  nul_free target = true -> pattern <> [] -> score_target pattern target <> FPanic.
+Proof. exact matcher_total. Qed.
+
+(* ... and a NUL inside the target does (the crash found in /repo, repaired there by replacing NUL before matching) *)
+Theorem matcher_panics_on_nul_refuted : exists pattern target, pattern <> [] /\ score_target pattern target = FPanic.
+Proof. exact matcher_panic_witness. Qed.
+
 Print Assumptions engine_indexes_in_range.
 Print Assumptions engine_bounded_for_any_limit.
 Print Assumptions postings_in_range.
 Print Assumptions load_classifies.
+Print Assumptions matcher_total_without_nul.
+Print Assumptions matcher_panics_on_nul_refuted.
